@@ -73,6 +73,11 @@ CHECKS = {
    text="Literal values enumerated from generated alias programs are tested with `='t`, `=('t)x` and through a generic identity; accepted => inhabits the type as written; compile-time type contained in the target => accepted. Every program runs directly, tree-shaken, merged after 0-4 unrelated corpus programs and in a REPL session with aliases on an earlier line; the verdict vectors must agree. One defect class (recursive partials) is a known finding.",
    design="§3 C08",
    note="Function/process/resource types are not generated here; wider-static-type rejections are allowed (documented carve-out)."),
+ "C02": dict(
+   technique="runtime monitoring: differential oracle — every executed program is also evaluated by an independent reference evaluator of docs/spec.md (harness/vh/src/refsem.rs) and the normalised results compared",
+   text="Workload: the repository's own test and docs programs, perturbed copies of them (literals, branch order, =>/, swaps), and programs from a typed generator aimed at stack/locals bookkeeping (partially failing patterns mid-chain, bindings in branches that fall through, multi-step consequences, ~ at depth, spreads, closures, $, tail calls from nested blocks, string holes). Compiled through the real compiler and run on the real worker; value and error-vs-value must equal the reference evaluator's.",
+   design="§3 C02",
+   note="Programs using processes, %ref, context-inferred function literals or type tests on function types are outside the reference evaluator and are counted inconclusive, not decided."),
  "C16": dict(
    technique="runtime monitoring: space monitor (executor peak counters + heap slot count) over tail-recursive shape templates executed at N and 50N",
    text="Tail-recursive shapes (self ^ in body / consequence / nested blocks / after bindings / after failed matches, named ^self through a passed function, ^~, per-iteration binaries, tuples, strings, and receive loops with int and binary messages) run at N and 50N on fresh profiled workers; peak frames, locals and operand stack must be identical and heap slots must not grow.",
